@@ -12,6 +12,14 @@ func init() {
 	regWorld(&World{Name: "wlcad", Pkg: "google.golang.org/grpc/balancer/rls/internal/adaptive",
 		Mounts: map[string]string{"balancer/rls/internal/adaptive": "sim/wlcad"}})
 
+	regWorld(&World{Name: "wlcwrr", Pkg: "google.golang.org/grpc/balancer/weightedroundrobin",
+		Mounts:  map[string]string{"balancer/weightedroundrobin": "sim/wlcwrr"},
+		Rewrite: []string{"balancer/endpointsharding/endpointsharding.go"}})
+	regProp("C36", (&Prop{World: "wlcwrr", QuickRuns: 60000, QuickSecs: 22, ThoroughRuns: 2000000, ThoroughSecs: 420, Batch: 200, RunTimeoutS: 30, PanicIsViolation: true,
+		Real: []string{"balancer/weightedroundrobin (balancer.go, scheduler.go) built through its registered balancer.Builder", "balancer/endpointsharding and balancer/pickfirst children underneath", "orca producer (orca/producer.go) for out-of-band reports"},
+		Stub: []string{"balancer.ClientConn / SubConn (recording fake; connections succeed at once, health READY is reported as the real channel does without health checking)", "ORCA server: scripted stream behind the fake SubConn's producer ClientConnInterface", "the channel: the run's root goroutine makes every call into the policy", "RPCs: Pick + Done(ServerLoad) from the root goroutine and from bursts of picker goroutines", "clock (synctest)", "goroutine scheduler (detrt)"}}).doc(
+		"TODO", "TODO", "TODO"))
+
 	regWorld(&World{Name: "wlcrls", Pkg: "google.golang.org/grpc/balancer/rls",
 		Mounts: map[string]string{"balancer/rls": "sim/wlcrls"}})
 
